@@ -13,7 +13,7 @@ import (
 func init() {
 	core.Register(&core.Property{
 		ID:          "C19",
-		Rule:        "fragmentation.Encode on fragment size 1..64 x fragment count 1..300 x redundancy 0..100 with seeded random data (quick: 3000 sampled (size,count,redundancy) triples + every count 1..130 at sizes 4 and 10 + every size 1..64 at counts 8 and 10; thorough: the complete size x count grid once plus 200k erasure trials). Oracles: systematic prefix, parity row == XOR of the rows selected by an independent implementation of the TS004 matrix_line/prbs23 pseudo code, linearity Encode(a^b)=Encode(a)^Encode(b), and an independent GF(2) Gaussian-elimination decoder that must rebuild the block from every full-rank random erasure pattern. Invalid sizes (0, negative, non-dividing) and negative redundancy must give an error or no parity, never a panic. Distinct = (size, count power-of-two?, count, redundancy class).",
+		Rule:        "fragmentation.Encode on fragment size 1..64 x fragment count 1..300 x redundancy 0..100 with seeded random data, plus firmware-update-sized sessions (fragment size 48..242, 400..2047 fragments, redundancy up to 300) (quick: 3000 sampled (size,count,redundancy) triples + every count 1..130 at sizes 4 and 10 + every size 1..64 at counts 8 and 10; thorough: the complete size x count grid once plus 200k erasure trials). Oracles: systematic prefix, parity row == XOR of the rows selected by an independent implementation of the TS004 matrix_line/prbs23 pseudo code, linearity Encode(a^b)=Encode(a)^Encode(b), and an independent GF(2) Gaussian-elimination decoder that must rebuild the block from every full-rank random erasure pattern. Invalid sizes (0, negative, non-dividing) and negative redundancy must give an error or no parity, never a panic. Distinct = (size, count power-of-two?, count, redundancy class).",
 		Assumptions: []string{"TS004-1.0.0 §8 pseudo code (matrix_line, prbs23) as transcribed in harness/spec/frag.go"},
 		MinEvals:    500,
 		Run:         runC19,
@@ -178,6 +178,15 @@ func runC19(c *core.Ctx) {
 		for size := 1; size <= 64; size++ {
 			run(size, 8, 6, true)
 			run(size, 10, 6, true)
+		}
+	}
+
+	// sizes of real firmware-update sessions (fragments of 48..242 bytes, hundreds to thousands of them)
+	for _, size := range []int{48, 100, 200, 232, 242} {
+		for _, count := range []int{400, 512, 1000, 1024, 2047} {
+			for _, red := range []int{0, 1, 20, 300} {
+				run(size, count, red, false)
+			}
 		}
 	}
 
